@@ -146,6 +146,10 @@ def run(P, R, tier):
             b = lam.body
             okm = isinstance(b, ast.Call) and isinstance(b.func, ast.Attribute) and b.func.attr == 'set_geometry' and isinstance(b.func.value, ast.Name) \
                 and b.func.value.id == lam.args.args[0].arg and b.args and norm(b.args[0]) == dsg.params[1]
+            if okm and any(k.arg == 'inplace' and norm(k.value) != 'False' for k in b.keywords):
+                okm = False
+                R.bad('C20.d', dsg, b, 'the per-partition set_geometry runs in place: it re-labels the partition objects of the SOURCE frame (shared by persisted / delayed graphs), '
+                                      'whose meta keeps advertising the old geometry')
     R.check(okm, 'C20.d', dsg, None, 'Dask set_geometry maps the pandas set_geometry(geometry) over every partition',
             'Dask set_geometry does not apply set_geometry(geometry) inside every partition', construct='map_partitions(lambda df: df.set_geometry(geometry))')
     rpd = P.func('spatialpandas.io.parquet', 'read_parquet_dask')
@@ -171,6 +175,25 @@ def run(P, R, tier):
                                             and astq.arg_of(s.value, kw='geometry') is not None and norm(astq.arg_of(s.value, kw='geometry')) == 'geometry'
                                             for s in walk_own(rp.node))
     R.check(ok3, 'C20.d', rp, None, 'read_parquet builds the frame with the requested geometry', 'read_parquet ignores geometry=', construct='return GeoDataFrame(df, geometry=geometry)')
+    gparam = 'geometry'
+    uses = [c for c in astq.own_calls(prd) if isinstance(c.func, ast.Attribute) and c.func.attr == 'set_geometry' and c.args and norm(c.args[0]) == gparam]
+    rebinds = []
+    for n_ in ast.walk(prd.node):
+        if isinstance(n_, (ast.For, ast.comprehension)):
+            if any(isinstance(x, ast.Name) and x.id == gparam for x in ast.walk(n_.target)):
+                rebinds.append(n_.iter)
+        elif isinstance(n_, ast.Assign):
+            if any(isinstance(x, ast.Name) and x.id == gparam and isinstance(x.ctx, ast.Store) for t in n_.targets for x in ast.walk(t)):
+                rebinds.append(n_)
+        elif isinstance(n_, (ast.With,)):
+            for it in n_.items:
+                if it.optional_vars is not None and any(isinstance(x, ast.Name) and x.id == gparam for x in ast.walk(it.optional_vars)):
+                    rebinds.append(n_)
+    for u in uses:
+        early = [r_ for r_ in rebinds if getattr(r_, 'lineno', 10 ** 9) < u.lineno]
+        R.check(not early, 'C20.d', prd, u, 'the geometry applied to the meta frame is the caller\'s geometry= argument (not re-bound before)',
+                f'`{gparam}` is re-bound (`{norm(early[0])[:80] if early else ""}`) before `{norm(u)}`: the meta frame and the bounds filter use another column than the partitions')
+    R.floor('C20.d', 'meta.set_geometry(geometry) sites', len(uses), 1)
     okmeta = any(isinstance(c.func, ast.Attribute) and c.func.attr == 'set_geometry' and norm(c.func.value) == 'meta' for c in astq.own_calls(prd))
     R.check(okmeta, 'C20.d', prd, None, 'the meta frame gets the requested geometry too', 'the meta frame does not get the requested geometry', construct='meta = meta.set_geometry(geometry)', nontrivial=False)
 
@@ -190,6 +213,20 @@ def run(P, R, tier):
         returns = any(isinstance(s, ast.Return) and s.value is not None for s in walk_own(f.node))
         R.check(calls_super and handles and setsg and returns, 'C20.e', f, None, '__finalize__ keeps pandas\' behaviour and restores _geometry on the input_objs path (concat/merge/compute)',
                 '__finalize__ does not restore _geometry for combined inputs', construct='__finalize__ (input_objs path)')
+        for st in walk_own(f.node):
+            if isinstance(st, ast.Assign) and isinstance(st.targets[0], ast.Attribute) and st.targets[0].attr == '_geometry':
+                recv = norm(st.targets[0].value)
+                g_ = st
+                offending = None
+                while getattr(g_, '_parent', None) is not None and g_._parent is not f.node:
+                    g_ = g_._parent
+                    if isinstance(g_, ast.If):
+                        t_ = norm(g_.test)
+                        if f'{recv}._has_valid_geometry(' in t_ or f'{recv}._geometry' in t_ or 'self._has_valid_geometry(' in t_ or 'self._geometry' in t_:
+                            offending = g_.test
+                R.check(offending is None, 'C20.e', f, st, 'the agreed geometry is adopted regardless of what the constructor hook pre-set on the result',
+                        f'adoption is skipped when `{norm(offending) if offending is not None else ""}`: _constructor_from_mgr pre-sets a column literally named "geometry", which then wins over '
+                        f'the active geometry the inputs agree on')
         R.check(agrees, 'C20.e', f, None, 'the active geometry is adopted only when all geo inputs agree on it', 'the active geometry is adopted without checking that the inputs agree',
                 construct='len(geometries) == 1', nontrivial=False)
     mn = P.func('spatialpandas.dask', 'meta_nonempty_dataframe')
